@@ -418,7 +418,36 @@ func init() {
 	}
 	intrinsics["(github.com/oklog/ulid/v2.ULID).String"] = func(st *pstate, fr *frame, fn *ssa.Function, args []value) value {
 		a := args[0].(array)
-		return fmt.Sprintf("01VERIF0000000000000%03d%03d", a[14].(byte), a[15].(byte))
+		plain := true
+		for i := 0; i < 14; i++ {
+			if b, ok := a[i].(byte); !ok || b != 0 {
+				plain = false
+			}
+		}
+		if plain {
+			return fmt.Sprintf("01VERIF0000000000000%03d%03d", a[14].(byte), a[15].(byte))
+		}
+		// an id built by interpreted code (ulid.New with an entropy source of the code under test): all 16 bytes
+		out := "01V"
+		for i := range a {
+			b, ok := a[i].(byte)
+			if !ok {
+				panic(unsupported("ULID with symbolic bytes"))
+			}
+			out += fmt.Sprintf("%02X", b)
+		}
+		return out
+	}
+	// the clock: a fixed instant (environment stub; the code under test may read it, e.g. to seed something)
+	intrinsics["time.Now"] = func(st *pstate, fr *frame, fn *ssa.Function, args []value) value {
+		st.useStub("time.Now = a fixed instant")
+		t, ok := zero(fn.Signature.Results().At(0).Type()).(structure)
+		if !ok || len(t) != 3 {
+			panic(unsupported("time.Time layout"))
+		}
+		t[0] = uint64(0)
+		t[1] = int64(63900000000) // seconds since year 1 (2025)
+		return t
 	}
 
 	// ---- sync
